@@ -26,7 +26,7 @@ ENTRIES = []
 def E(**kw):
     kw.setdefault("atoms", {}); kw.setdefault("data", []); kw.setdefault("pre", None)
     kw.setdefault("dontcare", None); kw.setdefault("native", False); kw.setdefault("guard_of", None)
-    kw.setdefault("after", None)
+    kw.setdefault("after", None); kw.setdefault("nomodel", None)
     ENTRIES.append(kw)
 
 VA = "src/vector/arithmetic.rs"; VF = "src/vector/functions.rs"
@@ -178,7 +178,7 @@ E(key="poly_index_mut", file=PA, anchor=r"fn index_mut\(&mut self, index: usize 
   atoms={"self.coeffs.len()": "len", "index": "i"}, spec="i < len", ok=lambda len, i: i < len)
 E(key="poly_roots_degree", file="src/polynomial/mod.rs", anchor=r"fn poly_solve\( coeffs: Vector::<Cmplx>, refine: bool \)", vars=[("len", 0, 6)],
   atoms={"degree": "(len - 1)"}, data=[r"degree == [123]", r"degree > 3", r"^refine$", r"x\.imag\.abs\(\)"], pre="1 <= len",
-  spec="2 <= len", ok=lambda len: len >= 2, dontcare=lambda len: len == 0)
+  spec="2 <= len", ok=lambda len: len >= 2, nomodel=lambda len: len == 0)   # len = 0: `coeffs.size() - 1` underflows (a panic the Z-model of the guard does not see)
 
 # ---- entry points protected by std's own bounds checks only (no explicit guard in the source): executor + oracle only
 VO = "src/vector/operations.rs"
